@@ -262,3 +262,10 @@ where
 		self(bytes)
 	}
 }
+
+/// Verification harness mount point (only compiled under `cargo kani`; source lives outside this repository)
+#[cfg(kani)]
+#[allow(unused, missing_docs)]
+pub(crate) mod verif {
+	include!(concat!(env!("SAF_VERIF"), "/de_read.rs"));
+}
